@@ -184,6 +184,8 @@ pub struct Tree {
 	pub gen: Block,
 	pub blocks: Vec<UB>,
 	pub nrd_enabled: bool,
+	/// named transactions offered to Chain::validate_tx as probes (Ev::T)
+	pub txs: Vec<(String, grin_core::core::Transaction)>,
 }
 
 impl Tree {
@@ -245,6 +247,19 @@ impl Tree {
 			Some(i) => self.blocks[i].block.header.height,
 		}
 	}
+	/// excess of every NRD kernel of the universe (blocks and probe transactions), deduplicated
+	pub fn nrd_excesses(&self) -> Vec<Commitment> {
+		let mut v: Vec<Commitment> = vec![];
+		let ks = self.blocks.iter().flat_map(|b| b.block.kernels().iter()).chain(self.txs.iter().flat_map(|(_, t)| t.kernels().iter()));
+		for k in ks {
+			if let KernelFeatures::NoRecentDuplicate { .. } = k.features {
+				if !v.contains(&k.excess) {
+					v.push(k.excess);
+				}
+			}
+		}
+		v
+	}
 	/// every commitment created anywhere in the tree (genesis included), deduplicated, in order
 	pub fn all_commits(&self) -> Vec<Commitment> {
 		let mut v: Vec<Commitment> = vec![];
@@ -288,6 +303,7 @@ impl Tree {
 			"gen": crate::ev::hex(&ser_vec(&self.gen, v).expect("ser")),
 			"nrd": self.nrd_enabled,
 			"blocks": blocks,
+			"txs": self.txs.iter().map(|(n, t)| serde_json::json!({"name": n, "hex": crate::ev::hex(&ser_vec(t, v).expect("ser"))})).collect::<Vec<_>>(),
 		});
 		std::fs::write(path, serde_json::to_vec(&j).unwrap()).expect("write tree");
 	}
@@ -314,10 +330,21 @@ impl Tree {
 				variant_of: b["variant_of"].as_u64().map(|x| x as usize),
 			})
 			.collect();
+		let txs = j["txs"]
+			.as_array()
+			.cloned()
+			.unwrap_or_default()
+			.iter()
+			.map(|t| {
+				let bytes = crate::ev::unhex(t["hex"].as_str().unwrap());
+				(t["name"].as_str().unwrap().to_string(), deserialize(&mut &bytes[..], v, DeserializationMode::default()).expect("tx"))
+			})
+			.collect();
 		Tree {
 			gen,
 			blocks,
 			nrd_enabled: j["nrd"].as_bool().unwrap_or(false),
+			txs,
 		}
 	}
 }
